@@ -470,6 +470,9 @@ func main() {
 		timeouts = 0
 		runAggCases(r, n, nil)
 	}
+	if mode == "all" || mode == "exec" {
+		runExecCases(r)
+	}
 	if mode == "all" || mode == "limit" {
 		timeouts = 0
 		runLimitCases(r, n)
